@@ -191,6 +191,22 @@ pub fn gen_workspace(rng: &mut Rng) -> WsModel {
         let (_, bytes) = gen_file_bytes(rng, &mut serial);
         m.put(&p, bytes);
     }
+    // bystanders: files whose names are what temp / backup / staging conventions derive from the name of a file
+    // that a patch may touch (an implementation that stages its writes must not collide with them)
+    if rng.chance(1, 2) {
+        let existing: Vec<String> = m.files.keys().cloned().collect();
+        for _ in 0..(1 + rng.usize(3)) {
+            if existing.is_empty() {
+                break;
+            }
+            let base = existing[rng.usize(existing.len())].clone();
+            let p = shadow_name(rng, &base);
+            if !m.exists(&p) && m.parents_ok(&p) {
+                let (_, bytes) = gen_file_bytes(rng, &mut serial);
+                m.put(&p, bytes);
+            }
+        }
+    }
     if rng.chance(1, 2) {
         m.dirs.insert("emptydir".to_string());
     }
@@ -198,6 +214,34 @@ pub fn gen_workspace(rng: &mut Rng) -> WsModel {
         m.add_parent_dirs("e1/e2/x");
     }
     m
+}
+
+/// A sibling name derived from `path` the way editors and staging code derive temp / backup names.
+pub fn shadow_name(rng: &mut Rng, path: &str) -> String {
+    let (dir, name) = match path.rsplit_once('/') {
+        Some((d, n)) => (format!("{d}/"), n.to_string()),
+        None => (String::new(), path.to_string()),
+    };
+    let stem = match name.rsplit_once('.') {
+        Some((s, _)) if !s.is_empty() => s.to_string(),
+        _ => name.clone(),
+    };
+    let n = match rng.below(14) {
+        0 | 1 => format!("{stem}.tmp"),
+        2 => format!("{name}.tmp"),
+        3 => format!("{name}~"),
+        4 => format!(".{name}.swp"),
+        5 => format!("{name}.bak"),
+        6 => format!("{name}.orig"),
+        7 => format!("{name}.new"),
+        8 => format!("{name}.rej"),
+        9 => format!("{name}.lock"),
+        10 => format!("#{name}#"),
+        11 => format!(".{name}.tmp"),
+        12 => format!("{stem}.temp"),
+        _ => format!("{stem}.part"),
+    };
+    format!("{dir}{n}")
 }
 
 // ------------------------------------------------------------------------------------------
@@ -555,7 +599,15 @@ impl Fresh {
                 1 => format!("ñew {}.md", self.n),
                 _ => NAMES[rng.usize(NAMES.len())].to_string(),
             };
-            let p = if d.is_empty() { name } else { format!("{d}/{name}") };
+            let mut p = if d.is_empty() { name } else { format!("{d}/{name}") };
+            // sometimes a new file takes the temp / backup name of a file that already exists
+            if rng.chance(1, 6) {
+                let existing: Vec<&String> = m.files.keys().collect();
+                if !existing.is_empty() {
+                    let base = existing[rng.usize(existing.len())].clone();
+                    p = shadow_name(rng, &base);
+                }
+            }
             if !m.exists(&p) && m.parents_ok(&p) {
                 return p;
             }
